@@ -14,7 +14,8 @@ META = {
                   'pytorch_wavelets.dtcwt.lowlevel.prep_filt', 'pytorch_wavelets.utils.symm_pad_1d', 'pytorch_wavelets.utils.reflect', 'pytorch_wavelets.dtcwt.coeffs._load_from_file'],
     'explanation': 'C03: DTCWTForward is run on input atoms; the lowpass and every (orientation, real/imag) subband element of every level minus the basis-response row of '
                    'dtcwt.Transform2d.forward must stay within tau; pyramid shapes are compared with the reference pyramid.',
-    'bounds': {'quick': {'filter pairs': DT.QUICK_PAIRS, 'sizes': SIZES_Q, 'J': [1, 2, 3], 'batch': '(1,1), (2,2) on a slice'},
+    'bounds': {'added_families': ['contexts nograd / reqgrad / transposed / chlast (near_sym_a+qshift_a 6x8 C=2; near_sym_b+qshift_b 5x6 B=2)', '33 and 17 channels on 4x4 (J=2,3); J=4 on 8x8, 6x8, 24x8; J=5 on 12x16'],
+               'quick': {'filter pairs': DT.QUICK_PAIRS, 'sizes': SIZES_Q, 'J': [1, 2, 3], 'batch': '(1,1), (2,2) on a slice'},
                'thorough': {'filter pairs': 'all 20', 'sizes': '{2..12}^2 (seed-rotated third) + (16,16),(13,16)', 'J': '1..3 (J=3 only up to 12x12), J=4 on 16x16'}},
     'outside': 'sizes above the lists, J>4, user-supplied filter tuples, float rounding in kernels',
     'assumptions': ['real-arithmetic semantics', 'dtcwt 0.14 Transform2d.forward is linear (checked per configuration)'],
